@@ -17,13 +17,16 @@
                                the CALLER's weights.
      C05_signed_modulo_search  both, for approx_mcb_sva_signed, the premise reduced (SvaProofs.sva_generic_min)
                                to the specification of the per-phase search on the spanner.
-   NOT proved here (kept as Definitions, not asserted): C05_signed_stmt — the same without the search premise
-   and with totality (the run returns ApproxOk).  Totality needs the optimality invariant of the plain
-   Dijkstra (no update of a vertex that left the queue) and the termination theorem of the exact phase;
-   covered by the correspondence run (no MODEL-ERROR, exact agreement) and the judges. *)
+     C05_no_error_modulo_exact on positive weights and k >= 1 the model produces no error value: if the exact phase
+                               returns cycles over valid spanner edge ids, the run returns ApproxOk (the plain
+                               Dijkstra never updates a vertex that left the queue and stays within its fuel,
+                               the predecessor walk reaches the source, every translated id is in range).
+   NOT proved here (kept as a Definition, not asserted): C05_signed_stmt — the signed entry point without the
+   search premise and with termination of the exact phase; covered by the correspondence run (no MODEL-ERROR,
+   exact agreement) and the judges. *)
 From Coq Require Import List Arith Bool ZArith Permutation Sorted Lia.
 From Parmcb Require Import GraphModel GF2Model GraphSpec McbSpec ForestModel SpannerModel SvaModel SvaSpec SvaProofs
-  SignedModel SignedZModel RefModel RefProofs3 ApproxModel ApproxProofsRun ApproxProofsSigned.
+  SignedModel SignedZModel RefModel RefProofs3 ApproxModel ApproxProofsRun ApproxProofsSigned ApproxProofsEdge.
 Import ListNotations.
 
 Theorem C05_basis_modulo_exact :
@@ -63,6 +66,16 @@ Theorem C05_signed_modulo_search :
     /\ total = total_weight w cycles.
 Proof. exact ap_signed_basis. Qed.
 Print Assumptions C05_signed_modulo_search.
+
+Theorem C05_no_error_modulo_exact :
+  forall (exact : graph -> list Z -> sva_result Z) g w k scan,
+    simple_graph g -> positive_weights g w -> 1 <= k -> Permutation scan (seq 0 (ne g)) ->
+    (forall sp, construct_spanner g k scan = SpOk sp ->
+       exists cs t sup, exact (sp_graph sp) (spanner_weights w sp) = SvaOk cs t sup
+                        /\ Forall (Forall (fun i => i < ne (sp_graph sp))) cs) ->
+    exists cycles total, approx_run exact g w k scan = ApproxOk cycles total.
+Proof. exact ap_run_total. Qed.
+Print Assumptions C05_no_error_modulo_exact.
 
 (* the full statement for the signed entry point: no premise on the search, and the run does return *)
 Definition C05_signed_stmt : Prop :=
